@@ -57,73 +57,46 @@ def K1L (s : Shared) (t : Thread) (oSF oDC : Prop) : Prop :=
 
 def K1Step (s : Shared) (t : Thread) (tid : Tid) (alt : Bool) : Prop :=
   ∀ lbl s' t', stepThread s t tid alt = some (lbl, s', t') → ∀ (oSF oDC : Prop),
-    s.timeout = false →
     ((match t.pc with | .nRelErr _ => true | _ => false) = true → t.x.isErr = true →
-      s.exc.isSome = true ∨ s.timeout = true) →
+      s.exc.isSome = true) →
     (holds .enq t.pc = true → ¬oSF) →
     (s.enqueueDone = true → s'.enqueueDone = true) →
     K1L s t oSF oDC → K1L s' t' oSF oDC
 
-
-theorem dbg_tR2_a {s t tid alt} {c : Caller} (hpc : t.pc = .tR2) : K1Step s t tid alt := by
-  intro lbl s' t' h oSF oDC hto hx3 hm hmono hj
+set_option hygiene false in
+macro "k1_group" : tactic => `(tactic| (
+  intro lbl s' t' h oSF oDC hx3 hm hmono hj
   unfold K1L at hj ⊢
   unfold stepThread at h
-  simp only [hpc] at h hx3 hm hj <;>
+  cases hpc : t.pc <;> (try (simp only [hpc, Pc.group] at hg; omega)) <;>
+    simp only [hpc] at h hx3 hm hj <;>
     (try simp only [acquire, release, notify, waitPark, waitWake, goto, enqLoop, putLoop, batchLoop,
       afterRaise, afterValue] at h) <;>
     (repeat' split at h) <;>
     (try simp only [Option.some.injEq, Prod.mk.injEq, reduceCtorEq] at h) <;>
     (try (obtain ⟨-, rfl, rfl⟩ := h)) <;>
-    (clear hto hx3; simp_all [Shared.setOwner, Shared.owner, sawFull, debtE, commitP, holds, enqueueDone_eq, doneOf_isSome, Shared.full])
+    first
+    | (simp_all [Shared.setOwner, Shared.owner, sawFull, debtE, commitP, holds, enqueueDone_eq, doneOf_isSome,
+        Shared.full]; done)
+    | (cases hew : s.enqWait <;>
+        simp_all [Shared.setOwner, Shared.owner, sawFull, debtE, commitP, holds, enqueueDone_eq, doneOf_isSome,
+          Shared.full] <;>
+        grind)))
 
-theorem dbg_tR2_b {s t tid alt} {c : Caller} (hpc : t.pc = .tR2) : K1Step s t tid alt := by
-  intro lbl s' t' h oSF oDC hto hx3 hm hmono hj
-  unfold K1L at hj ⊢
-  unfold stepThread at h
-  simp only [hpc] at h hx3 hm hj <;>
-    (try simp only [acquire, release, notify, waitPark, waitWake, goto, enqLoop, putLoop, batchLoop,
-      afterRaise, afterValue] at h) <;>
-    (repeat' split at h) <;>
-    (try simp only [Option.some.injEq, Prod.mk.injEq, reduceCtorEq] at h) <;>
-    (try (obtain ⟨-, rfl, rfl⟩ := h)) <;>
-    (simp_all [Shared.setOwner, Shared.owner, sawFull, debtE, commitP, holds, enqueueDone_eq, doneOf_isSome])
+theorem k1_g0 {s t tid alt} (hg : t.pc.group = 0) : K1Step s t tid alt := by k1_group
+theorem k1_g1 {s t tid alt} (hg : t.pc.group = 1) : K1Step s t tid alt := by k1_group
+theorem k1_g2 {s t tid alt} (hg : t.pc.group = 2) : K1Step s t tid alt := by k1_group
+theorem k1_g3 {s t tid alt} (hg : t.pc.group = 3) : K1Step s t tid alt := by k1_group
+theorem k1_g4 {s t tid alt} (hg : t.pc.group = 4) : K1Step s t tid alt := by k1_group
+theorem k1_g5 {s t tid alt} (hg : t.pc.group = 5) : K1Step s t tid alt := by k1_group
+theorem k1_g6 {s t tid alt} (hg : t.pc.group = 6) : K1Step s t tid alt := by k1_group
+theorem k1_g7 {s t tid alt} (hg : t.pc.group = 7) : K1Step s t tid alt := by k1_group
 
-theorem dbg_tR2_c {s t tid alt} {c : Caller} (hpc : t.pc = .tR2) : K1Step s t tid alt := by
-  intro lbl s' t' h oSF oDC hto hx3 hm hmono hj
-  unfold K1L at hj ⊢
-  unfold stepThread at h
-  simp only [hpc] at h hx3 hm hj <;>
-    (try simp only [acquire, release, notify, waitPark, waitWake, goto, enqLoop, putLoop, batchLoop,
-      afterRaise, afterValue] at h) <;>
-    (repeat' split at h) <;>
-    (try simp only [Option.some.injEq, Prod.mk.injEq, reduceCtorEq] at h) <;>
-    (try (obtain ⟨-, rfl, rfl⟩ := h)) <;>
-    (clear hmono; simp_all [Shared.setOwner, Shared.owner, sawFull, debtE, commitP, holds, enqueueDone_eq, doneOf_isSome, Shared.full])
-
-theorem dbg_tR2_d {s t tid alt} {c : Caller} (hpc : t.pc = .tR2) : K1Step s t tid alt := by
-  intro lbl s' t' h oSF oDC hto hx3 hm hmono hj
-  unfold K1L at hj ⊢
-  unfold stepThread at h
-  simp only [hpc] at h hx3 hm hj <;>
-    (try simp only [acquire, release, notify, waitPark, waitWake, goto, enqLoop, putLoop, batchLoop,
-      afterRaise, afterValue] at h) <;>
-    (repeat' split at h) <;>
-    (try simp only [Option.some.injEq, Prod.mk.injEq, reduceCtorEq] at h) <;>
-    (try (obtain ⟨-, rfl, rfl⟩ := h)) <;>
-    (clear hx3; simp_all [Shared.setOwner, Shared.owner, sawFull, debtE, commitP, holds, enqueueDone_eq, doneOf_isSome, Shared.full])
-
-theorem dbg_tR2_e {s t tid alt} {c : Caller} (hpc : t.pc = .tR2) : K1Step s t tid alt := by
-  intro lbl s' t' h oSF oDC hto hx3 hm hmono hj
-  unfold K1L at hj ⊢
-  unfold stepThread at h
-  simp only [hpc] at h hx3 hm hj <;>
-    (try simp only [acquire, release, notify, waitPark, waitWake, goto, enqLoop, putLoop, batchLoop,
-      afterRaise, afterValue] at h) <;>
-    (repeat' split at h) <;>
-    (try simp only [Option.some.injEq, Prod.mk.injEq, reduceCtorEq] at h) <;>
-    (try (obtain ⟨-, rfl, rfl⟩ := h)) <;>
-    (clear hto; simp_all [Shared.setOwner, Shared.owner, sawFull, debtE, commitP, holds, enqueueDone_eq, doneOf_isSome, Shared.full])
-
+theorem stepThread_k1 {s t tid alt} : K1Step s t tid alt := by
+  have h := Pc.group_lt t.pc
+  match hg : t.pc.group with
+  | 0 => exact k1_g0 hg | 1 => exact k1_g1 hg | 2 => exact k1_g2 hg | 3 => exact k1_g3 hg
+  | 4 => exact k1_g4 hg | 5 => exact k1_g5 hg | 6 => exact k1_g6 hg | 7 => exact k1_g7 hg
+  | n + 8 => omega
 
 end MlModel.Queue
